@@ -5,6 +5,7 @@ import (
 	"go/token"
 	"go/types"
 	"sort"
+	"strconv"
 	"strings"
 )
 
@@ -260,4 +261,233 @@ func itoa64(v int64) string {
 		return "-" + itoa(int(-v))
 	}
 	return itoa(int(v))
+}
+
+// R-WKT-NO-OVERFLOW: the Duration/Timestamp conversions compute on int64 field
+// values whose documented ranges are large (|seconds| ≤ 315576000000,
+// |nanos| ≤ 999999999): a product of two such values does not fit in int64
+// (3.2e20 > 9.2e18), so its sign and magnitude are meaningless. Every
+// multiplication (or left shift) of two non-constant 64-bit integers in these
+// functions is bounded by interval arithmetic over the documented ranges,
+// int32-typed operands and constants; a product that can exceed int64 is a
+// violation, an operand without a known bound makes it undecided.
+func (c *Ctx) ruleWKTNoOverflow(rule string) {
+	R, P := c.R, c.P
+	R.Rule(rule, "in every protojson function that reads or stores Duration/Timestamp seconds or nanos, each multiplication or left shift of non-constant 64-bit integers is shown by interval arithmetic (documented field ranges, 32-bit operand types, constants) to fit in int64", 4)
+	const maxI64 = float64(9223372036854775807)
+	for _, fi := range P.FuncsIn("encoding/protojson") {
+		if fi.Decl.Body == nil {
+			continue
+		}
+		info := fi.Info()
+		defs := localDefs(fi.Decl.Body, info)
+		// is this a WKT conversion function? it mentions a ranged field constant
+		ks := map[string]bool{}
+		genidConstsIn(fi.Decl.Body, info, defs, 0, ks)
+		ranged := false
+		for k := range ks {
+			if _, ok := wktRanges[k]; ok {
+				ranged = true
+			}
+		}
+		if !ranged {
+			continue
+		}
+		// magnitude bound of an expression (absolute value), ok=false if unknown
+		var mag func(e ast.Expr, depth int) (float64, bool)
+		mag = func(e ast.Expr, depth int) (float64, bool) {
+			e = unparen(e)
+			if v, ok := constInt(info, e); ok {
+				if v < 0 {
+					v = -v
+				}
+				return float64(v), true
+			}
+			if depth > 5 {
+				return 0, false
+			}
+			if t, ok := info.TypeOf(e).Underlying().(*types.Basic); ok {
+				switch t.Kind() {
+				case types.Int32, types.Uint32, types.Int16, types.Uint16, types.Int8, types.Uint8:
+					return 4294967295, true
+				}
+			}
+			switch x := e.(type) {
+			case *ast.Ident:
+				o := info.Uses[x]
+				best, have := 0.0, false
+				for _, d := range defs[o] {
+					// a variable read from a ranged field
+					cs := map[string]bool{}
+					genidConstsIn(d.rhs, info, defs, 0, cs)
+					for k := range cs {
+						if r, ok := wktRanges[k]; ok {
+							m := float64(r.hi)
+							if float64(-r.lo) > m {
+								m = float64(-r.lo)
+							}
+							if m > best {
+								best = m
+							}
+							have = true
+						}
+					}
+					if !have {
+						if m, ok := mag(d.rhs, depth+1); ok {
+							if m > best {
+								best = m
+							}
+							have = true
+						} else {
+							return 0, false
+						}
+					}
+				}
+				return best, have
+			case *ast.CallExpr:
+				if tv, ok := info.Types[x.Fun]; ok && tv.IsType() && len(x.Args) == 1 {
+					return mag(x.Args[0], depth+1)
+				}
+				if calleeKey(info, x) == "builtin.len" {
+					return 2147483647, true
+				}
+			case *ast.UnaryExpr:
+				if x.Op == token.SUB {
+					return mag(x.X, depth+1)
+				}
+			}
+			return 0, false
+		}
+		n := 0
+		walk(fi.Decl.Body, func(node ast.Node) bool {
+			be, ok := node.(*ast.BinaryExpr)
+			if !ok || (be.Op != token.MUL && be.Op != token.SHL) {
+				return true
+			}
+			t, ok := info.TypeOf(be).Underlying().(*types.Basic)
+			if !ok || (t.Kind() != types.Int64 && t.Kind() != types.Int && t.Kind() != types.Uint64) {
+				return true
+			}
+			if _, isConst := constInt(info, be); isConst {
+				return true
+			}
+			n++
+			construct := fi.Key + " product#" + itoa(n)
+			a, okA := mag(be.X, 0)
+			b, okB := mag(be.Y, 0)
+			if be.Op == token.SHL {
+				if okB && b < 63 {
+					b = float64(uint64(1) << uint(b))
+				} else {
+					okB = false
+				}
+			}
+			switch {
+			case !okA || !okB:
+				R.Unk(rule, construct, P.Pos(be), "no bound known for an operand of "+exprStr(be)+": cannot show that the product fits in int64")
+			case a*b > maxI64:
+				R.Bad(rule, construct, P.Pos(be), exprStr(be)+" can reach "+fmtFloat(a)+" × "+fmtFloat(b)+", beyond int64: for in-range field values the result wraps around, so its sign and magnitude are arbitrary")
+			default:
+				R.OK(rule, construct, P.Pos(be), "bounded by "+fmtFloat(a)+" × "+fmtFloat(b))
+			}
+			return true
+		})
+		R.OK(rule, fi.Key+" scanned", P.Pos(fi.Decl), itoa(n)+" non-constant products")
+	}
+}
+
+func fmtFloat(f float64) string {
+	return strings.TrimSuffix(strings.TrimSuffix(strconv.FormatFloat(f, 'g', 4, 64), "e+00"), ".0")
+}
+
+// R-FIELDMASK-REVERSIBLE: the JSON reader of FieldMask maps every path element
+// through one function F (strs.JSONSnakeCase) before storing it. The writer
+// emits G(s) for a stored path s; it may do so only where F(G(s)) == s has
+// been established, otherwise the path read back differs from the one written
+// ("fooBar" → "fooBar" → "foo_bar").
+func (c *Ctx) ruleFieldMaskReversible(rule string) {
+	R, P := c.R, c.P
+	R.Rule(rule, "FieldMask JSON: the writer emits the converted path only on the established fact `s == F(converted)` where F is the very function the reader applies to each element before storing it", 2)
+	fr := c.need(rule, "encoding/protojson.decoder.unmarshalFieldMask")
+	fw := c.need(rule, "encoding/protojson.encoder.marshalFieldMask")
+	if fr == nil || fw == nil {
+		return
+	}
+	// reader: list.Append(ValueOfString(s)), s := F(s0)
+	rinfo := fr.Info()
+	rdefs := localDefs(fr.Decl.Body, rinfo)
+	F := ""
+	walk(fr.Decl.Body, func(n ast.Node) bool {
+		call, ok := n.(*ast.CallExpr)
+		if !ok || calleeKey(rinfo, call) != "reflect/protoreflect.List.Append" || len(call.Args) != 1 {
+			return true
+		}
+		walk(call.Args[0], func(x ast.Node) bool {
+			if id, ok := x.(*ast.Ident); ok {
+				for _, d := range rdefs[rinfo.Uses[id]] {
+					if dc, ok := unparen(d.rhs).(*ast.CallExpr); ok {
+						if k := calleeKey(rinfo, dc); strings.HasPrefix(k, "internal/strs.") {
+							F = k
+						}
+					}
+				}
+			}
+			return true
+		})
+		return true
+	})
+	if F == "" {
+		R.Unk(rule, fr.Key+" element conversion", P.Pos(fr.Decl), "the conversion applied to each element before it is stored was not found")
+		return
+	}
+	R.OK(rule, fr.Key+" element conversion", P.Pos(fr.Decl), "elements stored through "+F)
+	winfo := fw.Info()
+	wdefs := localDefs(fw.Decl.Body, winfo)
+	g := fw.CFG()
+	n := 0
+	walk(fw.Decl.Body, func(node ast.Node) bool {
+		as, ok := node.(*ast.AssignStmt)
+		if !ok || len(as.Rhs) != 1 {
+			return true
+		}
+		call, ok := unparen(as.Rhs[0]).(*ast.CallExpr)
+		if !ok || calleeKey(winfo, call) != "builtin.append" || len(call.Args) != 2 {
+			return true
+		}
+		id, ok := unparen(call.Args[1]).(*ast.Ident)
+		if !ok {
+			return true
+		}
+		cc := winfo.Uses[id]
+		// cc := G(s)
+		var sObj types.Object
+		for _, d := range wdefs[cc] {
+			if dc, ok := unparen(d.rhs).(*ast.CallExpr); ok && strings.HasPrefix(calleeKey(winfo, dc), "internal/strs.") && len(dc.Args) == 1 {
+				sObj = objOf(winfo, dc.Args[0])
+			}
+		}
+		if sObj == nil {
+			return true
+		}
+		n++
+		good := g.DominatedByCond(as, func(core ast.Expr, val bool) bool {
+			be, ok := unparen(core).(*ast.BinaryExpr)
+			if !ok || !((be.Op == token.NEQ && !val) || (be.Op == token.EQL && val)) {
+				return false
+			}
+			match := func(a, b ast.Expr) bool {
+				if objOf(winfo, a) != sObj {
+					return false
+				}
+				fc, ok := unparen(b).(*ast.CallExpr)
+				return ok && calleeKey(winfo, fc) == F && len(fc.Args) == 1 && objOf(winfo, fc.Args[0]) == cc
+			}
+			return match(be.X, be.Y) || match(be.Y, be.X)
+		})
+		R.Check(good, rule, fw.Key+" emitted path", P.Pos(as), "emitted only when "+sObj.Name()+" == "+shortKey(F)+"("+id.Name+")", "the converted path is emitted on a path where `"+sObj.Name()+" == "+shortKey(F)+"("+id.Name+")` has not been established: the reader applies "+shortKey(F)+" to it and stores a different path (e.g. \"fooBar\" is written unchanged and read back as \"foo_bar\")")
+		return true
+	})
+	if n == 0 {
+		R.Unk(rule, fw.Key+" emitted path", P.Pos(fw.Decl), "append of the converted path not found")
+	}
 }
